@@ -70,22 +70,31 @@ pub struct ProjectOpts {
     pub wild_trivia: bool,
     pub imports: bool,
     pub max_schema_files: usize,
+    /// the extra independent operation file may hold an anonymous operation (shorthand `{ .. }` or `query { .. }`)
+    pub anonymous_extra: bool,
+    /// a schema file may extend a built-in scalar (`extend scalar ID @tag(..)`): legal, the definition is implicit
+    pub extend_builtin_scalar: bool,
     pub doc: DocGenOpts,
     pub schema: SchemaGenOpts,
 }
 
 impl Default for ProjectOpts {
     fn default() -> Self {
-        ProjectOpts { plugins: false, wild_trivia: false, imports: true, max_schema_files: 3, doc: DocGenOpts::default(), schema: SchemaGenOpts::default() }
+        ProjectOpts { plugins: false, wild_trivia: false, imports: true, max_schema_files: 3, anonymous_extra: false, extend_builtin_scalar: false, doc: DocGenOpts::default(), schema: SchemaGenOpts::default() }
     }
 }
 
-fn join(a: &str, b: &str) -> String {
+pub fn join(a: &str, b: &str) -> String {
     if a == "." { b.to_string() } else { format!("{a}/{b}") }
 }
 
 pub fn gen_project(case: &mut Case, o: &ProjectOpts) -> GenProject {
     let layout = gen_layout(&mut case.ch);
+    // one project in six has a backslash in two file names (an ordinary character in a POSIX file name)
+    let backslash_names = case.ch.chance(1, 6);
+    if backslash_names {
+        case.label("file-names-with-backslash");
+    }
     let gs = gen_schema(&mut case.ch, &o.schema);
     let files = split_into_extensions(&mut case.ch, &gs.doc);
     let has_extension = files.iter().flatten().any(|d| matches!(d, MTsDef::TypeExt(_)));
@@ -107,7 +116,20 @@ pub fn gen_project(case: &mut Case, o: &ProjectOpts) -> GenProject {
     for (i, f) in files.iter().enumerate() {
         let r = ropts(case);
         let text = render_ts_file(f, r, Some(&mut case.ch)).text;
-        schema_files.push((join(&join(&layout.root, &layout.schema_dir), &format!("s{i}.graphqls")), text));
+        // (the name sorts where `s0.graphqls` would: files are read in the order of their names)
+        let fname = if backslash_names && i == 0 { "s0\\a.graphqls".to_string() } else { format!("s{i}.graphqls") };
+        schema_files.push((join(&join(&layout.root, &layout.schema_dir), &fname), text));
+    }
+    if o.extend_builtin_scalar && case.ch.chance(1, 5) {
+        if let Some(d) = gs.schema.directives.get("tag") {
+            if d.locations.iter().any(|l| l == "SCALAR") {
+                // (not String / Int: @tag has arguments of these types, and a directive must not be applied within its own argument types)
+        let b = *case.ch.pick(&["ID", "Float", "Boolean"]);
+                let last = schema_files.len() - 1;
+                schema_files[last].1.push_str(&format!("\nextend scalar {b} @tag(name: \"built-in\")\n"));
+                case.label("extends-built-in-scalar");
+            }
+        }
     }
     // operations: 1..3 files; fragments may live in a library file imported by the others
     let (gd, _) = gen_doc(&mut case.ch, &gs.schema, &o.doc);
@@ -151,21 +173,28 @@ pub fn gen_project(case: &mut Case, o: &ProjectOpts) -> GenProject {
     let split = split.files.len() > 1;
     if case.ch.chance(1, 3) {
         // an extra independent file
+        let anonymous = o.anonymous_extra && case.ch.chance(1, 2);
+        let shorthand = anonymous && case.ch.flip();
+        if anonymous {
+            case.label(if shorthand { "anonymous-shorthand-operation" } else { "anonymous-operation" });
+        }
         op_models.push((
-            join(&ops_base, "other.graphql"),
+            join(&ops_base, if backslash_names { "oth\\er.graphql" } else { "other.graphql" }),
             vec![MExecDef::Op(MOperation {
                 op: OpType::Query,
-                name: Some("OtherQuery".into()),
+                name: if anonymous { None } else { Some("OtherQuery".into()) },
                 vars: vec![],
                 directives: vec![],
                 sel: vec![MSelection::Field(MFieldSel { alias: None, name: "__typename".into(), args: vec![], directives: vec![], sel: None })],
-                shorthand: false,
+                shorthand,
             })],
         ));
     }
     let mut op_files = vec![];
     for (p, m) in &op_models {
-        let r = ropts(case);
+        let mut r = ropts(case);
+        // only the anonymous extra operation asks for the shorthand form
+        r.allow_shorthand = true;
         op_files.push((p.clone(), render_op_doc(m, r, Some(&mut case.ch)).text));
     }
     // config (paths relative to the config's directory)
